@@ -528,9 +528,20 @@ def gen_code():
         fail("rs2lean: broken tie: the source could not be processed (%s: %s)" % (type(e).__name__, e))
 
 
+def gen_interp_code():
+    """the whole `interpret` function of interpreter.rs (all 18 arms, every loop) re-translated by tools/rs2lean.py into Generated/InterpCode.lean"""
+    import rs2lean
+    try:
+        return rs2lean.generate_interp()
+    except rs2lean.TieError as e:
+        fail("rs2lean (interpret): broken tie: %s" % e)
+    except (IndexError, KeyError, TypeError, ValueError, AssertionError, RecursionError, StopIteration) as e:
+        fail("rs2lean (interpret): broken tie: the source could not be processed (%s: %s)" % (type(e).__name__, e))
+
+
 def main():
     ch = []
-    for name, fn in (("Lbp.lean", gen_lbp), ("Signatures.lean", gen_sigs), ("Features.lean", gen_features), ("LexTable.lean", gen_lextable), ("Vocab.lean", gen_vocab), ("CliArgs.lean", gen_cli), ("Code.lean", gen_code)):
+    for name, fn in (("Lbp.lean", gen_lbp), ("Signatures.lean", gen_sigs), ("Features.lean", gen_features), ("LexTable.lean", gen_lextable), ("Vocab.lean", gen_vocab), ("CliArgs.lean", gen_cli), ("Code.lean", gen_code), ("InterpCode.lean", gen_interp_code)):
         if write_if_changed(name, fn()):
             ch.append(name)
     print("translate: " + ("rewrote " + ", ".join(ch) if ch else "unchanged"))
